@@ -53,6 +53,11 @@ EXCLUSIONS = {
     'ternary-one-const-arm': 'the arms of ?: are both constant or both non-constant [finding ternary-partial-possible]',
     'break-cond-nonconst': 'a break is never guarded by a constant condition, and loops with a break are generated at the '
                            'top level of a function only [finding break-in-do-while-escapes-if]',
+    'no-bool-operand-in-compare': 'an operand of a comparison is never itself a comparison / logical / ! expression '
+                                  '[finding bool-compare-negative (C03)]',
+    'return-only-in-top-level-if': 'an early return is only generated as the last statement of an if/else block at function '
+                                   'level, never nested deeper or inside a loop/switch; nothing follows a return '
+                                   '[finding nested-return-escapes-outer-if (C03)]',
     'alias-self-read': 'the value stored through an alias pointer never reads the aliased variable [finding alias-ternary]',
 }
 
@@ -391,6 +396,15 @@ class Gen:
             return n
         return self.mk_bin('!=', n, self.mk_lit(0))
 
+    def nonbool(self, n, env, avoid=None):
+        """calibrated profile (exclusion no-bool-operand-in-compare): an operand of a comparison is never
+        itself a comparison / logical expression"""
+        if not self.cal:
+            return n
+        if (n.k == 'bin' and (n.a in CMP or n.a in LOGIC)) or (n.k == 'un' and n.a == '!'):
+            return self.leaf(env, avoid)
+        return n
+
     def signed_val(self, n):
         """calibrated profile: make the operand's type a signed type of >= 32 bits without changing
         its value (mask + widen when the promoted type is unsigned)"""
@@ -516,6 +530,7 @@ class Gen:
             return self.mk_bin(op, a, b)
         if x < 0.65:
             a, b = self.expr(env, depth - 1, avoid), self.expr(env, depth - 1, avoid)
+            a, b = self.nonbool(a, env, avoid), self.nonbool(b, env, avoid)
             if self.cal and is_signed(promote(a.t)) != is_signed(promote(b.t)):
                 a, b = self.signed_val(a), self.signed_val(b)
             return self.mk_bin(r.choice(CMP), a, b)
@@ -608,6 +623,7 @@ class Gen:
             return self.mk_bin(r.choice(CMP), v, c)
         if x < 0.8:
             a, b = self.expr(env, depth, avoid), self.expr(env, depth, avoid)
+            a, b = self.nonbool(a, env, avoid), self.nonbool(b, env, avoid)
             if self.cal and is_signed(promote(a.t)) != is_signed(promote(b.t)):
                 a, b = self.signed_val(a), self.signed_val(b)
             return self.mk_bin(r.choice(CMP), a, b)
@@ -624,10 +640,11 @@ class Gen:
         return self.mk_un('!', self.truth(a))
 
     # ------------------------------------------------------------ statements
-    def block(self, env, out, indent, nstmts, loopdepth, fn_ret):
+    def block(self, env, out, indent, nstmts, loopdepth, fn_ret, kind='other'):
         env = env.child()
         for _ in range(nstmts):
-            self.stmt(env, out, indent, loopdepth, fn_ret)
+            if self.stmt(env, out, indent, loopdepth, fn_ret, kind) == 'returned' and self.cal:
+                break   # nothing is generated after a return (no dead code in the calibrated profile)
 
     def emit(self, out, indent, parts):
         """parts: list of str | N ; writes one line into both writers"""
@@ -659,7 +676,7 @@ class Gen:
                 e = self.smalllit(0, 9)
         return self.mk_cast(ret, e)
 
-    def stmt(self, env, out, indent, loopdepth, fn_ret):
+    def stmt(self, env, out, indent, loopdepth, fn_ret, kind='other'):
         r = self.rng
         x = r.random()
         depth_ok = indent < 4
@@ -710,10 +727,10 @@ class Gen:
             self.feat('if')
             c = self.cond(env)
             self.emit(out, indent, ['if (', c, ') {'])
-            self.block(env, out, indent + 1, r.randint(1, 3), loopdepth, fn_ret)
+            self.block(env, out, indent + 1, r.randint(1, 3), loopdepth, fn_ret, 'if')
             if r.random() < 0.45:
                 self.emit(out, indent, ['} else {'])
-                self.block(env, out, indent + 1, r.randint(1, 3), loopdepth, fn_ret)
+                self.block(env, out, indent + 1, r.randint(1, 3), loopdepth, fn_ret, 'if')
                 self.feat('else')
             self.emit(out, indent, ['}'])
             return
@@ -793,10 +810,12 @@ class Gen:
                 self.emit(out, indent, ['}'])
             self.emit(out, indent, ['}'])
             return
-        if x < 0.79 and fn_ret and indent >= 2:
+        # exclusion return-only-in-top-level-if (calibrated): cppcheck treats a block that merely *contains* a nested
+        # return/break as escaping [findings nested-return-escapes-outer-if, break-in-do-while-escapes-if]
+        if x < 0.79 and fn_ret and indent >= 2 and (not self.cal or (indent == 2 and kind == 'if')):
             self.feat('early-return')
             self.emit(out, indent, ['return ', self.ret_expr(env, fn_ret, 1), ';'])
-            return
+            return 'returned'
         if x < 0.83:
             # alias write through a pointer to a scalar
             tgt = [v for v in env.vars if v[0] == 'scalar' and v[2] in ('int', 'unsigned int', 'long', 'short', 'unsigned char')]
